@@ -250,9 +250,9 @@ package keeper
 //@   ensures forall t int :: 0 <= t && t < len(ret0.Bridges) ==> (forall d bytes :: TokenPairs[(ret0.Bridges[t].BridgeId, d)] != None ==>
 //@        (exists u int :: 0 <= u && u < len(ret0.Bridges[t].TokenPairs) && ret0.Bridges[t].TokenPairs[u].L2Denom == d))                              // C16: every_token_pair_exported
 //@   ensures forall t int :: 0 <= t && t < len(ret0.Bridges) ==> (forall u int :: 0 <= u && u < len(ret0.Bridges[t].ProvenWithdrawals) ==>
-//@        ProvenWithdrawals[(ret0.Bridges[t].BridgeId, ret0.Bridges[t].ProvenWithdrawals[u])] != None)                                              // C16: only_recorded_claims_exported
+//@        ProvenWithdrawals[(ret0.Bridges[t].BridgeId, ret0.Bridges[t].ProvenWithdrawals[u])] != None)                                              // C16,C08: only_recorded_claims_exported
 //@   ensures forall t int :: 0 <= t && t < len(ret0.Bridges) ==> (forall h bytes :: len(h) == 32 && ProvenWithdrawals[(ret0.Bridges[t].BridgeId, h)] != None ==>
-//@        (exists u int :: 0 <= u && u < len(ret0.Bridges[t].ProvenWithdrawals) && ret0.Bridges[t].ProvenWithdrawals[u] == h))                        // C16: every_claim_exported
+//@        (exists u int :: 0 <= u && u < len(ret0.Bridges[t].ProvenWithdrawals) && ret0.Bridges[t].ProvenWithdrawals[u] == h))                        // C16,C08: every_claim_exported
 //@   ensures forall t int :: 0 <= t && t < len(ret0.Bridges) ==> (forall u int :: 0 <= u && u < len(ret0.Bridges[t].BatchInfos) ==>
 //@        (exists i uint64 :: BatchInfos[(ret0.Bridges[t].BridgeId, i)] == Some(ret0.Bridges[t].BatchInfos[u])))                                     // C16: only_stored_batch_infos_exported
 //@   ensures forall t int :: 0 <= t && t < len(ret0.Bridges) ==> (forall i uint64 :: BatchInfos[(ret0.Bridges[t].BridgeId, i)] != None ==>
@@ -315,7 +315,7 @@ package keeper
 //@   ensures forall t int :: 0 <= t && t < len(bs) ==> (forall u int :: 0 <= u && u < len(bs[t].TokenPairs) ==>
 //@        TokenPairs[(bs[t].BridgeId, bs[t].TokenPairs[u].L2Denom)] == Some(bs[t].TokenPairs[u].L1Denom))                                     // C16: token_pairs_imported
 //@   ensures forall t int :: 0 <= t && t < len(bs) ==> (forall u int :: 0 <= u && u < len(bs[t].ProvenWithdrawals) ==>
-//@        ProvenWithdrawals[(bs[t].BridgeId, bs[t].ProvenWithdrawals[u])] != None)                                                           // C16: claim_records_imported
+//@        ProvenWithdrawals[(bs[t].BridgeId, bs[t].ProvenWithdrawals[u])] != None)                                                           // C16,C08: claim_records_imported
 //@   ensures forall t int :: 0 <= t && t < len(bs) ==> (forall u int :: 0 <= u && u < len(bs[t].BatchInfos) ==>
 //@        BatchInfos[(bs[t].BridgeId, u)] == Some(bs[t].BatchInfos[u]))                                                                      // C16: batch_infos_imported_in_order
 //   outer loop over the bridges ($i0 inside the inner loops is the index of the current bridge)
